@@ -280,6 +280,30 @@ func (r *simRing) settle(maxRounds int, fingers bool, order func(ms []*ringsim.M
 	return maxRounds, c
 }
 
+// fillLists runs maintenance rounds until every live node's successor list has
+// min(L, M) entries (a freshly joined node knows only its immediate successor;
+// fault scenarios that remove that successor are only survivable once the list
+// has been extended, which the protocol does within one stabilize interval).
+func (r *simRing) fillLists(maxRounds int) bool {
+	full := func() bool {
+		ms := r.live()
+		want := chord.ExtendedSuccessorEntries
+		if len(ms) < want {
+			want = len(ms)
+		}
+		for _, m := range ms {
+			if len(m.Node.VerifSuccessors()) < want {
+				return false
+			}
+		}
+		return true
+	}
+	for i := 0; i < maxRounds && !full(); i++ {
+		maintenanceRound(r.live())
+	}
+	return full()
+}
+
 // buildRing creates ids[0] and joins the others serially, each through a
 // member picked by viaPick(i) among the already joined ones.
 func (r *simRing) buildRing(ids []uint64, viaPick func(i int) int) error {
